@@ -88,6 +88,8 @@ def timeOf (p : TinyFlux.Spec.Point) : DateTime := ⟨p.time⟩
 def timestamp (t : DateTime) : Int := t.us
 /-- `t.replace(tzinfo=timezone.utc)` on a time read from storage (which holds UTC wall-clock times): the same instant -/
 def DateTime.replaceTzUtc (t : DateTime) : DateTime := t
+/-- `sorted(values, key=lambda x: (x is None, x))` on optional strings: by value, `None` last -/
+def sortedOptStr (l : List (Option String)) : List (Option String) := l.mergeSort TinyFlux.Spec.optStrLe
 /-- `sorted(strings)` -/
 def sortedStr (l : List String) : List String := TinyFlux.Spec.sortStr l
 
